@@ -222,13 +222,15 @@ class SocketStream(Stream):
         return self.sock is ClosedFile
 
     def close(self):
-        if not self.closed:
+        # mark the stream closed before the socket goes away: another thread using the stream at this moment must find
+        # either the live socket or the closed marker, never a dead socket object
+        sock, self.sock = self.sock, ClosedFile
+        if sock is not ClosedFile:
             try:
-                self.sock.shutdown(socket.SHUT_RDWR)
+                sock.shutdown(socket.SHUT_RDWR)
             except Exception:
                 pass
-        self.sock.close()
-        self.sock = ClosedFile
+        sock.close()
 
     def fileno(self):
         try:
@@ -326,10 +328,11 @@ class PipeStream(Stream):
         return self.incoming is ClosedFile
 
     def close(self):
-        self.incoming.close()
-        self.outgoing.close()
-        self.incoming = ClosedFile
-        self.outgoing = ClosedFile
+        # mark the stream closed before the files go away (see SocketStream.close)
+        incoming, self.incoming = self.incoming, ClosedFile
+        outgoing, self.outgoing = self.outgoing, ClosedFile
+        incoming.close()
+        outgoing.close()
 
     def fileno(self):
         return self.incoming.fileno()
